@@ -11,7 +11,7 @@ import struct
 import sys
 
 META = {'explanation': 'tables: complete enumeration against struct.calcsize; endian laws: proved contracts; value compatibility: bounded differential'}
-EXTRA_TASKS = ['tables', 'differential']
+EXTRA_TASKS = ['tables', 'differential', 'struct_token_factors']
 CODES = 'bBhHlLiIqQefd'
 
 
@@ -238,3 +238,40 @@ def differential(tier='quick', seed=0):
                {'id': 'C18/utils.REPLACEMENTS_NE/native-prefix-@-uses-native-sizes', 'qualname': 'utils.structparser', 'shape': 'native @',
                 'function': "pack('@x')", 'bound': '13 codes', 'evaluations': 13, 'failures': native[:2]}]
     return {'id': 'C18.differential', 'obligations': [], 'bounded': bounded, 'evaluations': evals, 'summary': f'{evals} differential cases'}
+
+
+def struct_token_factors(tier='quick', seed=0):
+    """'k*<hB' and '<2h' style tokens against struct.pack for every prefix: counts multiply a code, factors repeat the group (bounded)"""
+    import random
+    import re
+    import struct
+    from bitstring import pack
+    rng = random.Random(seed)
+    ranges = {'b': (-128, 127), 'B': (0, 255), 'h': (-2 ** 15, 2 ** 15 - 1), 'H': (0, 2 ** 16 - 1), 'l': (-2 ** 31, 2 ** 31 - 1), 'L': (0, 2 ** 32 - 1),
+              'q': (-2 ** 63, 2 ** 63 - 1), 'Q': (0, 2 ** 64 - 1), 'e': None, 'f': None, 'd': None}
+    fails = []
+    evals = 0
+    for _ in range(600 if tier == 'quick' else 10000):
+        evals += 1
+        prefix = rng.choice('<>=')
+        codes = ''.join(rng.choice('bBhHlLqQefd') for _ in range(rng.randint(1, 3)))
+        counted = ''.join((str(rng.randint(2, 3)) if rng.random() < 0.25 else '') + c for c in codes)
+        flat = ''.join(m.group(2) * int(m.group(1) or 1) for m in re.finditer(r'(\d*)([bBhHlLqQefd])', counted))
+        k = rng.choice([1, 2, 2, 3])
+        spelled = rng.choice([f'{k}*{prefix}{counted}', f'{k}*({prefix}{counted})', ', '.join([prefix + counted] * k)])
+        vals = [rng.choice([0.0, 1.5, -2.0, 1024.0]) if ranges[c] is None else rng.choice([ranges[c][0], ranges[c][1], 0, 1, rng.randint(*ranges[c])]) for c in flat * k]
+        want = struct.pack(prefix + flat * k, *vals)
+        try:
+            got = pack(spelled, *vals)
+            ok = got.tobytes() == want and got.unpack(spelled) == vals
+        except Exception:
+            ok = False
+        if not ok:
+            fails.append({'call': f'pack({spelled!r}, *{vals!r})', 'expected': f'struct.pack({prefix + flat * k!r}, ...)',
+                          'python': f"import bitstring, struct\nv = {vals!r}\ntry:\n    FAILS = bitstring.pack({spelled!r}, *v).tobytes() != struct.pack({prefix + flat * k!r}, *v)\nexcept Exception:\n    FAILS = True"})
+            if len(fails) > 4:
+                break
+    return {'id': 'C18.factors', 'obligations': [], 'evaluations': evals,
+            'bounded': [{'id': 'C18/utils.preprocess_tokens/struct-tokens-with-counts-and-factors', 'qualname': 'utils.preprocess_tokens', 'shape': 'random struct tokens',
+                         'function': 'pack / unpack of struct-style tokens', 'bound': '600 random tokens (10000 thorough)', 'evaluations': evals, 'failures': fails[:3]}],
+            'summary': f'{evals} tokens, {len(fails)} failures'}
